@@ -5,6 +5,7 @@ From Coba Require C05.Run.
 From Coba Require C20.Run.
 From Coba Require C17.Run.
 From Coba Require C09.Run.
+From Coba Require C11.Run.
 Open Scope Z_scope.
 
 Definition dispatch (op : Z) (x : sx) : sx :=
@@ -13,5 +14,6 @@ Definition dispatch (op : Z) (x : sx) : sx :=
   | 20 => C20.Run.run x
   | 17 => C17.Run.run x
   | 9 => C09.Run.run x
+  | 11 => C11.Run.run x
   | _ => err 98
   end.
